@@ -306,7 +306,9 @@ func checkC03(w *Worker) {
 							break
 						}
 						if got.Rows[j].Level == rw.Level {
-							if !(got.Rows[j].Label < rw.Label) {
+							// siblings are sorted by their NAME (the first segment of a joined label), not by the label text:
+							// "a/x" comes before "a b/y" although '/' sorts after ' '
+							if !(strings.SplitN(got.Rows[j].Label, "/", 2)[0] < strings.SplitN(rw.Label, "/", 2)[0]) {
 								viol("siblings-unsorted", fmt.Sprintf("siblings %q, %q out of order", got.Rows[j].Label, rw.Label))
 								return
 							}
@@ -423,6 +425,25 @@ func checkC03(w *Worker) {
 			if x.Choose(2, "input:member") == 1 {
 				idxs = append(idxs, i)
 			}
+		}
+		return idxs
+	}, 2))
+	// sibling names of which one is a prefix of the other, continued by a byte on either side of '/' in the byte order
+	// (space, '-', '.' sort below the separator, '0' and letters above): siblings are sorted by NAME, not by path text
+	uniP := pathUniverse([]string{"a", "a-b", "a b", "a.b", "a0"}, 2) // 30 paths
+	w.Explore("sets-le3-prefix-siblings", ExploreOpts{ShardDepth: 5}, body(uniP, func(x *Exec) []int {
+		var idxs []int
+		n := x.Choose(4, "input:size")
+		lo := 0
+		for k := 0; k < n; k++ {
+			remaining := n - k - 1
+			hi := len(uniP) - remaining
+			if hi <= lo {
+				break
+			}
+			pick := lo + x.Choose(hi-lo, "input:member")
+			idxs = append(idxs, pick)
+			lo = pick + 1
 		}
 		return idxs
 	}, 2))
